@@ -76,15 +76,23 @@ Definition iverify_identity (w : iworld) (account : addr) : res ilog :=
 (* recovery_target *)
 Definition irecovery_target (w : iworld) (old : addr) : option addr := alist_get old (w_recovered w).
 
-Inductive iop := IVerify (account : addr) | IRecoveryTarget (old : addr).
+Inductive iop :=
+| IVerify (account : addr)
+| IRecoveryTarget (old : addr)
+| ILinks                       (* are the verifier's links to its two registries (instance storage:
+                                  ClaimTopicsAndIssuers, IdentityRegistryStorage) still there; the harness sets
+                                  both when it creates the verifier and nothing ever removes them *)
+| IAdvance (n : Z).            (* the ledger advances by n *)
 Record icall := mkIC { ic_op : iop; ic_world : iworld }.
 
-Inductive iret := IUnit | ITarget (t : option addr).
+Inductive iret := IUnit | ITarget (t : option addr) | ILinked (cti irs : bool).
 
 Definition istep (c : icall) : res iret * ilog :=
   match ic_op c with
   | IVerify a => match iverify_identity (ic_world c) a with Ok lg => (Ok IUnit, lg) | Fail => (Fail, []) end
   | IRecoveryTarget old => (Ok (ITarget (irecovery_target (ic_world c) old)), [])
+  | ILinks => (Ok (ILinked true true), [])
+  | IAdvance _ => (Ok IUnit, [])
   end.
 
 (* ------------------------------------------------------------------ *)
